@@ -2,6 +2,7 @@
   C15 helper lemmas: the `_deduplicated` loop, one-criterion characterisations.
 -/
 import Kopf.Model.C15_Match
+import Kopf.Model.C15_Selector
 namespace Kopf.C15
 
 -- ---------------------------------------------------------------------------------------------
@@ -89,6 +90,52 @@ theorem dedupByAux_first (l : List α) : ∀ (seen : List (Nat × String)) (pre 
         exact List.mem_cons_of_mem _ (ih (key x :: seen) pre' post h e this hp')
 
 end Dedup
+
+-- ---------------------------------------------------------------------------------------------
+-- Selector.check: the single conjuncts
+
+theorem optEq_iff (x : Option String) (y : String) :
+    optCore (optEq x y) = true ↔ ∀ n, x = some n → y = n := by
+  cases x with
+  | none => simp [optCore, optEq]
+  | some s =>
+    simp only [optCore, optEq, Option.isNone_some, Bool.false_or, beq_iff_eq, Option.some.injEq, forall_eq']
+    exact eq_comm
+
+theorem optEqOpt_iff (x y : Option String) :
+    optCore (optEqOpt x y) = true ↔ ∀ n, x = some n → y = some n := by
+  cases x with
+  | none => simp [optCore, optEqOpt]
+  | some s =>
+    cases y with
+    | none => simp [optCore, optEqOpt]
+    | some t =>
+      simp only [optCore, optEqOpt, Option.isNone_some, Bool.false_or, beq_iff_eq, Option.some.injEq, forall_eq']
+      exact eq_comm
+
+theorem optIn_iff (x : Option String) (ys : List String) :
+    optCore (optIn x ys) = true ↔ ∀ n, x = some n → n ∈ ys := by
+  cases x <;> simp [optCore, optIn]
+
+theorem version_iff (v : Option String) (rv : String) (pr fnNone : Bool) :
+    versionCore { versionNone := v.isNone, preferred := pr, fnNone := fnNone,
+                  versionEq := match v with | some x => x == rv | none => false } = true ↔
+      (∀ x, v = some x → rv = x) ∧ (v = none → fnNone = true → pr = true) := by
+  cases v with
+  | none => cases pr <;> cases fnNone <;> simp [versionCore]
+  | some x =>
+    simp only [versionCore, Option.isNone_some, Bool.false_and, Bool.not_false, Bool.true_and, Bool.false_or,
+      beq_iff_eq, Option.some.injEq, forall_eq', reduceCtorEq, false_implies, and_true]
+    exact eq_comm
+
+theorem named_iff (n : String) (rk rsg : Option String) (rp : String) (rsh : List String) :
+    ((optEqOpt (some n) rk).holds || (optEq (some n) rp).holds || (optEqOpt (some n) rsg).holds ||
+      (optIn (some n) rsh).holds) = true ↔
+      (rk = some n ∨ rp = n ∨ rsg = some n ∨ n ∈ rsh) := by
+  have e : ∀ a b : String, (a = b) ↔ (b = a) := fun a b => eq_comm
+  cases rk <;> cases rsg <;>
+    simp only [optEqOpt, optEq, optIn, Bool.or_eq_true, beq_iff_eq, Bool.false_eq_true, false_or, or_false,
+      List.contains_eq_mem, decide_eq_true_eq, reduceCtorEq, Option.some.injEq, or_assoc, e n]
 
 -- ---------------------------------------------------------------------------------------------
 -- one metadata criterion
